@@ -54,10 +54,8 @@ func (s *state) Seen() bool {
 	return atomic.LoadUint32((*uint32)(s))&stateSeen != 0
 }
 func (s *state) Ready() bool {
-	if s.Closed() {
-		return false
-	}
-	return atomic.LoadUint32((*uint32)(s))&stateReady != 0
+	v := atomic.LoadUint32((*uint32)(s))
+	return v&stateClosed == 0 && v&stateReady != 0
 }
 func (s *state) Last() uint16 {
 	return uint16(atomic.LoadUint32((*uint32)(s)) >> 16)
@@ -77,25 +75,19 @@ func (s *state) Set(v uint32) {
 	}
 }
 func (s *state) CanRecv() bool {
-	if s.Closed() || s.RecvClosed() {
-		return false
-	}
-	return atomic.LoadUint32((*uint32)(s))&stateCanRecv != 0
+	v := atomic.LoadUint32((*uint32)(s))
+	return v&stateClosed == 0 && v&stateRecvClose == 0 && v&stateCanRecv != 0
 }
 func (s *state) Closing() bool {
-	if s.Closed() {
-		return true
-	}
-	return atomic.LoadUint32((*uint32)(s))&stateClosing != 0
+	v := atomic.LoadUint32((*uint32)(s))
+	return v&stateClosed != 0 || v&stateClosing != 0
 }
 func (s *state) Channel() bool {
 	return atomic.LoadUint32((*uint32)(s))&stateChannel != 0
 }
 func (s *state) Shutdown() bool {
-	if s.Closed() {
-		return true
-	}
-	return atomic.LoadUint32((*uint32)(s))&stateShutdown != 0
+	v := atomic.LoadUint32((*uint32)(s))
+	return v&stateClosed != 0 || v&stateShutdown != 0
 }
 func (s *state) Unset(v uint32) {
 	for {
@@ -120,22 +112,16 @@ func (s *state) Replacing() bool {
 	return atomic.LoadUint32((*uint32)(s))&stateReplacing != 0
 }
 func (s *state) RecvClosed() bool {
-	if s.Closed() {
-		return true
-	}
-	return atomic.LoadUint32((*uint32)(s))&stateRecvClose != 0
+	v := atomic.LoadUint32((*uint32)(s))
+	return v&stateClosed != 0 || v&stateRecvClose != 0
 }
 func (s *state) SendClosed() bool {
-	if s.Closed() {
-		return true
-	}
-	return atomic.LoadUint32((*uint32)(s))&stateSendClose != 0
+	v := atomic.LoadUint32((*uint32)(s))
+	return v&stateClosed != 0 || v&stateSendClose != 0
 }
 func (s *state) WakeClosed() bool {
-	if s.Closed() {
-		return true
-	}
-	return atomic.LoadUint32((*uint32)(s))&stateWakeClose != 0
+	v := atomic.LoadUint32((*uint32)(s))
+	return v&stateClosed != 0 || v&stateWakeClose != 0
 }
 func (s *state) SetLast(v uint16) {
 	for {
@@ -178,13 +164,8 @@ func (s *state) ChannelCanStop() bool {
 	return !s.Channel()
 }
 func (s *state) ChannelCanStart() bool {
-	if s.Closed() {
-		return false
-	}
-	if s.Channel() {
-		return true
-	}
-	return s.ChannelValue()
+	v := atomic.LoadUint32((*uint32)(s))
+	return v&stateClosed == 0 && (v&stateChannel != 0 || v&stateChannelValue != 0)
 }
 func (s *state) SetChannel(e bool) bool {
 	if e {
